@@ -91,8 +91,11 @@ def q_seq(name, spec, pitch, nrange, key=None, wait=(11, 13), near=None, max_pat
         if not shifted:
             back = seq.transpose(-n)
             er2, dr2 = rel_events(raw_rel(seq))
-            ctx.must("roundtrip_restores", and_(back is False, events_eq_multiset_timed(_tonic(er2), _tonic(orig)),
-                                                eq(dr2, b.total)))
+            # (an input that already lies outside the playable range cannot be restored: the way back wraps it)
+            in_range_before = and_([and_(i.pitch >= LO, i.pitch <= HI) for i in b.notes])
+            ctx.must("roundtrip_restores", implies(in_range_before, and_(back is False,
+                                                                         events_eq_multiset_timed(_tonic(er2), _tonic(orig)),
+                                                                         eq(dr2, b.total))))
             obs.append(obs_events(er2, dr2))
         return obs + [shifted]
     cl = ["views_agree", "in_range", "image_of_original", "return_value", "exact_shift_when_not_wrapped",
@@ -156,6 +159,49 @@ def q_keys_only(key, nrange):
                                                                         "bar_seq_key_transposed"], desc="key signature without notes")
 
 
+def q_two_keys(nrange):
+    """two key-signature events in one sequence (a modulation)"""
+    def fn(ctx):
+        k1 = ctx.int("k1", 0, 14)
+        k2 = ctx.int("k2", 0, 14)
+        n = ctx.int("n", *nrange)
+        key1, key2 = KEYS[k1], KEYS[k2]
+        seq = rel_sequence([ks(key1), on(0, 60, 9), wait(12), off(0, 60), ks(key2), wait(12)])
+        seq.transpose(n)
+        er, dr = rel_events(raw_rel(seq))
+        kk = [e for e in er if e.kind == KS]
+        ok = len(kk) == 2 and all(isinstance(e.m.key, Key) for e in kk)
+        ctx.must("key_defined", ok)
+        if ok:
+            ctx.must("key_transposed", and_(eq((TONIC[key1.value] + n) % 12, TONIC[kk[0].m.key.value]),
+                                            eq((TONIC[key2.value] + n) % 12, TONIC[kk[1].m.key.value])))
+        return [[str(e.m.key) for e in kk]]
+    return Query(f"two_keys/n{nrange[0]}..{nrange[1]}", fn, ["key_defined", "key_transposed"], desc="two key signatures, both transposed")
+
+
+def q_same_relative_object_twice():
+    """two transpositions of the same RelativeSequence object: the second answer does not depend on the first"""
+    def fn(ctx):
+        from scoda.sequences.relative_sequence import RelativeSequence
+        p = ctx.int("p", 100, 108)
+        n1 = ctx.int("n1", 1, 20)
+        n2 = ctx.int("n2", -3, 3)
+        rel = RelativeSequence([on(0, p, 9), wait(12), off(0, p), on(0, 60, 9), wait(12), off(0, 60)])
+        first = rel.transpose(n1)
+        mid = [m.note for m in rel._messages if m.message_type == ON]
+        second = rel.transpose(n2)
+        out = [m.note for m in rel._messages if m.message_type == ON]
+        want2 = or_([or_(x + n2 < LO, x + n2 > HI) for x in mid])
+        ctx.must("return_value", iff(second, want2), disc="second call")
+        ctx.must("in_range", and_([and_(x >= LO, x <= HI) for x in out]))
+        seq = Sequence(relative_sequence=rel)
+        third = seq.transpose(0)
+        ctx.must("return_value_wrapped_in_sequence", third is False)
+        return [first, second, third]
+    return Query("same_relative_object_twice", fn, ["return_value", "in_range", "return_value_wrapped_in_sequence"],
+                 desc="RelativeSequence.transpose twice on one object, then through a Sequence")
+
+
 def q_raw_events(nrange):
     """no octave wrap: every event keeps its tick, velocity and order, whatever the input looks like (also overlapping
     notes of one pitch and an unclosed note): transposition must not tidy the sequence up"""
@@ -202,6 +248,10 @@ def queries(tier, seed):
     # two notes, wraps allowed: one pitch mid-range, one within 3 of a limit; waits concrete (the re-quantisation
     # after a wrap forks on every duration value)
     qs.append(q_raw_events((-30, 30)))
+    qs.append(q_two_keys((-13, 13)))
+    qs.append(q_same_relative_object_twice())
+    # input pitches outside the playable range are brought inside whatever the direction of the interval
+    qs.append(q_seq("n1", N1, (0, 127), (-3, 3), wait=(12, 12)))
     for k in sorted({(seed + 3) % 15, 12, 14}):
         qs.append(q_keys_only(k, (-13, 13)))
     qs.append(q_seq("n2", N2, (LO, HI), (-15, 15), wait=(12, 12), near=[1], mid=[0]))
